@@ -81,6 +81,7 @@ def run(ctx: Ctx):
     # D2
     rules.rule_enter_sites(ctx, KINDS, "D2")
     rules.rule_transition(ctx, "D2")
+    ctx.attempt(rules.rule_state_lineage, ctx, "D2", rules.step_path_funcs(repo))
     # D3 dispatcher filter
     dispatcher_filter(ctx)
     ctx.floor("TS.pairing", 13)
@@ -92,8 +93,24 @@ def run(ctx: Ctx):
 def fold_helper(ctx: Ctx):
     repo = ctx.repo
     outer = repo.func(DOPS, "modify_vehicle_assignment")
-    inner = repo.func(DOPS, "modify_vehicle_assignment._modify")
+    inner = repo.func_opt(DOPS, "modify_vehicle_assignment._modify")
     sim, vid, reqs, un = outer.params[:4]
+    if inner is None:
+        # written as a loop: it must visit every request of the list (no break / return inside), skipping only the
+        # ones that are gone, and (un)assign the others through modify_request
+        loops = [l for l in ast.walk(outer.node) if isinstance(l, ast.For) and flow.dump(l.iter) == reqs]
+        if len(loops) != 1:
+            raise AnalysisError("modify_vehicle_assignment: neither the `_modify` fold nor a single loop over the requests")
+        loop = loops[0]
+        early = [x for x in ast.walk(loop) if isinstance(x, (ast.Break, ast.Return))]
+        errs_only = all(isinstance(x, ast.Return) and flow.classify_result(x.value) == "error" for x in early)
+        ctx.check(not early or errs_only, "D1", "TS.fold-helper", "modify_vehicle_assignment visits every request of the list (a missing one is skipped, not a reason to stop)", outer, loop,
+                  why_bad=f"`{type(early[0]).__name__.lower()}` inside the loop over the requests: requests listed after a missing one keep (or never get) their assignment record",
+                  construct="modify_vehicle_assignment:stops-early")
+        src = repo.module(DOPS).segment(loop)
+        both = "unassign_dispatched_vehicle()" in src and "assign_dispatched_vehicle(" in src and "modify_request(" in src
+        ctx.check(both, "D1", "TS.fold-helper", "the loop assigns / unassigns through modify_request", outer, loop, why_bad="arms missing", construct="modify_vehicle_assignment:loop-arms")
+        return
     # outer: returns reduce(_modify, requests, (None, sim))
     ps = [p for p in flow.paths(outer.node) if p.kind == "return"]
     good = len(ps) == 1 and flow.match(f"ft.reduce(_modify, {reqs}, (None, {sim}))", ps[0].value) is not None
